@@ -9,7 +9,7 @@ from ..astutil import Deps, is_name, unwrap
 from ..cfg import CFG, Node
 from ..domains import CompShape, merge_order
 from ..engine import Analysis
-from ..kinds import NOVALUE, both, call_nodes, calls_to, classify_handler, forwards_varargs, normal_only, q, scenario
+from ..kinds import module_sentinel, NOVALUE, both, call_nodes, calls_to, classify_handler, forwards_varargs, normal_only, q, scenario
 from ..loader import FunctionInfo, dotted, parent, stmt_text
 from . import c02
 
@@ -119,14 +119,19 @@ def check(an: Analysis) -> None:
             if isinstance(e, ast.Compare) and len(e.ops) == 1 and isinstance(e.ops[0], (ast.In, ast.NotIn)) and is_state_map(e.comparators[0]):
                 return present if isinstance(e.ops[0], ast.In) else (not present)
             if isinstance(e, ast.Call) and isinstance(e.func, ast.Attribute) and e.func.attr == "get" and is_state_map(e.func.value):
-                return _OBJ if present else (None if len(e.args) < 2 else NOVALUE)
+                if present:
+                    return _OBJ
+                if len(e.args) < 2:
+                    return None
+                dflt = unwrap(e.args[1])
+                return dflt.value if isinstance(dflt, ast.Constant) else f(dflt)
             if is_name(e, p_default):
                 return _OBJ if has_default else None
             if isinstance(e, ast.Name) and ds.single_value(e.id) is not None:
-                sv = ds.single_value(e.id)
+                sv = unwrap(ds.single_value(e.id))
                 if isinstance(sv, ast.Call) and isinstance(sv.func, ast.Attribute) and sv.func.attr == "get" and is_state_map(sv.func.value):
-                    return _OBJ if present else None
-            return NOVALUE
+                    return f(sv)
+            return module_sentinel(state.module, e)
 
         return f
 
